@@ -233,6 +233,7 @@ def run_job(job):
                     f.write("y" * rng.randrange(0, 30))
             except OSError:
                 pass
+        pool = []
         for qi in range(job["queries"]):
             frm = rng.choice(["d", "d", "d", "d, e", "e, d", "d dfs", "d, e, d", "e, e"])
             path = rng.choice(["streamed", "ordered", "aggregate", "grouped"])
@@ -285,6 +286,8 @@ def run_job(job):
             all_ok = True
             for fmt in ("json", "csv", "html", "tabs", "lines"):
                 fq = q + " into " + rng.choice([fmt, fmt.upper()])
+                if ordered_cmp and shape != "thousands":
+                    pool.append(fq)
                 r = runner.run([fq], cwd=w, home=home, trace=True)
                 res.ev()
                 ctx = {"query": fq, "names": made, "list_table": ref[:20], "result": r.brief()}
@@ -335,6 +338,9 @@ def run_job(job):
                 if ref:
                     res.nt("%s|%s|%d" % (path, q, len(ref)))
                 res.sample({"query": q, "path": path, "rows": len(ref), "first_row": ref[:1]}, cap=3)
+        # history: several formats in one interactive session (`fselect -i`): every document is complete and separate
+        if len(pool) >= 2:
+            runner.session_matches(res, rng.sample(pool, min(5, len(pool))), w, home, "output formats")
     finally:
         runner.rm_scratch(sc)
     return res
